@@ -475,8 +475,12 @@ func (e *SpecEnv) callExpr(n *ECall, cur, old *State) Val {
 				if !vc.declared[key] {
 					vc.declared[key] = true
 					vc.fact(Forall([]Term{kq}, Imp(Select(d, kq), Ge(sz, One)), []Term{Select(d, kq)}))
+					kq2 := Term{"k!q2", keySort(mt.Key())}
+					vc.fact(Forall([]Term{kq, kq2}, Imp(And(Select(d, kq), Select(d, kq2), Ne(kq, kq2)), Ge(sz, IntT(2))), []Term{Select(d, kq), Select(d, kq2)}))
 					w := vc.fresh("witness", keySort(mt.Key()))
 					vc.fact(Imp(Ge(sz, One), Select(d, w)))
+					w1, w2 := vc.fresh("witness", keySort(mt.Key())), vc.fresh("witness", keySort(mt.Key()))
+					vc.fact(Imp(Ge(sz, IntT(2)), And(Select(d, w1), Select(d, w2), Ne(w1, w2))))
 				}
 				return scalar(intT, sz)
 			case *types.Basic:
@@ -691,6 +695,42 @@ func (e *SpecEnv) callExpr(n *ECall, cur, old *State) Val {
 				ref = v.L[1]
 			}
 			return scalar(intT, Select(vc.get(cur, "Pos"), ref))
+		case "hashkey", "hashkeyalgo", "hashkeyval":
+			// hashkey(a, v): fmt.Sprintf("%d:%s", a, v) (the trusted injective model of
+			// that format); hashkeyalgo(k) / hashkeyval(k): its two inverses
+			name := "sprintf|%d:%s"
+			fn := vc.declareFun(name, []*Sort{SInt, SStr}, SStr)
+			i0 := vc.declareFun(name+"|inv0", []*Sort{SStr}, SInt)
+			i1 := vc.declareFun(name+"|inv1", []*Sort{SStr}, SStr)
+			if !vc.declared["hashkey|axiom"] {
+				vc.declared["hashkey|axiom"] = true
+				qa, qv := Term{"a!q", SInt}, Term{"v!q", SStr}
+				app := mk(SStr, fn, qa, qv)
+				vc.fact(Forall([]Term{qa, qv}, And(Eq(mk(SInt, i0, app), qa), Eq(mk(SStr, i1, app), qv)), []Term{app}))
+			}
+			if id.Name == "hashkey" {
+				a := e.eval(n.Args[0], cur, old)
+				b := e.eval(n.Args[1], cur, old)
+				return scalar(types.Typ[types.String], mk(SStr, fn, a.one(), b.one()))
+			}
+			k := e.eval(n.Args[0], cur, old)
+			if id.Name == "hashkeyalgo" {
+				return scalar(types.Typ[types.Int32], mk(SInt, i0, k.one()))
+			}
+			return scalar(types.Typ[types.String], mk(SStr, i1, k.one()))
+		case "idowner":
+			// idowner(x, s): an uninterpreted ghost function (reference, string) -> reference. A
+			// precondition "forall p in elems(x.Nodes) :: idowner(x, p.Id) == p" states that
+			// identifiers identify the entries of x (it has a model exactly when they do) and
+			// instantiates linearly, unlike the pairwise form.
+			a := e.eval(n.Args[0], cur, old)
+			b := e.eval(n.Args[1], cur, old)
+			fn := vc.declareFun("ghost.idowner", []*Sort{SInt, SStr}, SInt)
+			t := e.resolveType("sbom.Node")
+			if t == nil {
+				return e.fail("idowner: type sbom.Node not found")
+			}
+			return scalar(types.NewPointer(t), mk(SInt, fn, a.L[0], b.one()))
 		case "pathjoin":
 			// pathjoin(dir, name): filepath.Join(dir, name) (the trusted two-argument model)
 			a := e.eval(n.Args[0], cur, old)
